@@ -228,6 +228,8 @@ class TrioEventLoop(EventLoop):
         """
         with scope:
             await self._sleep(seconds)
+            # an alarm that fires no longer exists for remove_alarm()
+            scope.cancel()
             callback()
 
     def _handle_main_loop_exception(self, exc: BaseException) -> None:
